@@ -184,7 +184,8 @@ def gen_can_schema(r, prefix="C", max_bindings=6, flat=False, buses=True, big_en
     if not flat:
         for i in range(r.randint(0, 2)):
             n = "%sIn%d" % (prefix, i)
-            d, w = gen_budget_struct(r, n, r.randint(1, 24), enums, enum_w, [], {}, fidx, flat=True, floats=False)
+            # (inner structs may hold arrays of scalars: their unrolled elements carry the nesting prefix)
+            d, w = gen_budget_struct(r, n, r.randint(1, 24), enums, enum_w, [], {}, fidx, flat=(r.random() < 0.5), floats=False)
             decls.append(d)
             structs.append(n)
             struct_w[n] = w
